@@ -252,7 +252,15 @@ func New(c *config.Config) (*Olric, error) {
 }
 
 func (db *Olric) preconditionFunc(conn redcon.Conn, _ redcon.Command) bool {
-	err := db.isOperable()
+	// Write the routing table's own errors: they are the ones registered with a
+	// protocol prefix (CLUSTERQUORUM, OPERATIONTIMEOUT), so the client on the other
+	// side can turn the reply back into ErrClusterQuorum / ErrOperationTimeout.
+	// isOperable returns the public errors, which go out as a generic ERR.
+	err := db.rt.CheckMemberCountQuorum()
+	if err == nil {
+		// An Olric node has to be bootstrapped to function properly.
+		err = db.rt.CheckBootstrap()
+	}
 	if err != nil {
 		protocol.WriteError(conn, err)
 		return false
